@@ -75,6 +75,56 @@ Proof. reflexivity. Qed.
 Lemma okp_dict_eq kvs1 kvs2 : okp (VDict kvs1) (VDict kvs2) = okp_dict kvs2 kvs1.
 Proof. reflexivity. Qed.
 
+(* the opcode oracle is a valid alignment wherever two all-atom sequences are compared *)
+Fixpoint opsv (t1 t2 : value) (q : path) {struct t1} : Prop :=
+  match t1, t2 with
+  | VList xs, VList ys | VTuple xs, VTuple ys =>
+      (forallb is_atom xs = true -> forallb is_atom ys = true -> valid_ops xs ys (ops q xs ys)) /\
+      (fix go (xs ys : list value) (i : nat) {struct xs} : Prop :=
+         match xs, ys with
+         | x :: xs', y :: ys' => opsv x y (snoc q (PIdx i)) /\ go xs' ys' (S i)
+         | _, _ => True
+         end) xs ys 0
+  | VDict kvs1, VDict kvs2 =>
+      (fix go (l : list (atom * value)) : Prop :=
+         match l with
+         | [] => True
+         | (k, v1) :: r => match assoc k kvs2 with Some v2 => opsv v1 v2 (snoc q (PKey k)) | None => True end /\ go r
+         end) kvs1
+  | _, _ => True
+  end.
+
+Definition opsv_list (q : path) := fix go (xs ys : list value) (i : nat) {struct xs} : Prop :=
+  match xs, ys with
+  | x :: xs', y :: ys' => opsv x y (snoc q (PIdx i)) /\ go xs' ys' (S i)
+  | _, _ => True
+  end.
+Definition opsv_dict (q : path) (kvs2 : list (atom * value)) := fix go (l : list (atom * value)) : Prop :=
+  match l with
+  | [] => True
+  | (k, v1) :: r => match assoc k kvs2 with Some v2 => opsv v1 v2 (snoc q (PKey k)) | None => True end /\ go r
+  end.
+Lemma opsv_list_eq xs ys q : opsv (VList xs) (VList ys) q =
+  ((forallb is_atom xs = true -> forallb is_atom ys = true -> valid_ops xs ys (ops q xs ys)) /\ opsv_list q xs ys 0).
+Proof. reflexivity. Qed.
+Lemma opsv_tuple_eq xs ys q : opsv (VTuple xs) (VTuple ys) q =
+  ((forallb is_atom xs = true -> forallb is_atom ys = true -> valid_ops xs ys (ops q xs ys)) /\ opsv_list q xs ys 0).
+Proof. reflexivity. Qed.
+Lemma opsv_dict_eq kvs1 kvs2 q : opsv (VDict kvs1) (VDict kvs2) q = opsv_dict q kvs2 kvs1.
+Proof. reflexivity. Qed.
+
+Lemma opsv_global : (forall p xs ys, forallb is_atom xs = true -> forallb is_atom ys = true -> valid_ops xs ys (ops p xs ys)) ->
+  forall t1 t2 q, opsv t1 t2 q.
+Proof.
+  intros H. induction t1 as [a|xs IH|xs IH|kvs IH|xs|xs] using value_ind'; intros t2 q; destruct t2; try exact I.
+  - rewrite opsv_list_eq. split; [apply H|]. generalize 0. revert xs0. induction IH as [|x xs Hx _ IHl]; intros ys i; [exact I|].
+    destruct ys; [exact I|]. cbn. split; [apply Hx|apply IHl].
+  - rewrite opsv_tuple_eq. split; [apply H|]. generalize 0. revert xs0. induction IH as [|x xs Hx _ IHl]; intros ys i; [exact I|].
+    destruct ys; [exact I|]. cbn. split; [apply Hx|apply IHl].
+  - rewrite opsv_dict_eq. induction IH as [|[k v] l Hk _ IHl]; [exact I|]. cbn. split; [|exact IHl].
+    destruct (assoc k kvs0); [apply Hk|exact I].
+Qed.
+
 (* all guards of a pair *)
 Definition guards (t1 t2 : value) : Prop :=
   wf t1 = true /\ wf t2 = true /\ alias_free (atoms_of t1 ++ atoms_of t2) /\ okp t1 t2 /\
